@@ -162,8 +162,19 @@ def o5(tier):
     return _shared(lambda: C10.o8(tier), 'O5', 'shared with C10-O8: on SQLite the stored created_at / kind are the ones that were hashed into the id (no clamping or truncation on write)')
 
 
+def o6(tier):
+    from props import C10
+    return _shared(lambda: C10.o4(tier), 'O6', 'shared with C10-O4: on SQLite re-saving a message writes every column from its own field (the timestamp the id commits to is not replaced by another column)')
+
+
+def o7(tier):
+    """stored messages of one group are not reachable / replaceable through another group that shares an event id"""
+    from props import memobs
+    return memobs.find_message_scoped(tier, 'O7', 'O7')
+
+
 def run(tier, seed, only=None):
-    obs = [('O1', o1), ('O2', o2), ('O3', o3), ('O4', o4), ('O5', o5)]
+    obs = [('O1', o1), ('O2', o2), ('O3', o3), ('O4', o4), ('O5', o5), ('O6', o6), ('O7', o7)]
     out = []
     for k, f in obs:
         if only and k not in only:
